@@ -47,23 +47,39 @@ func c16Values() ([]date.Date, []roman.Number, []sem.Ver, []size.Size, []uu.ID) 
 func c16Formatters() []c16Formatter {
 	return []c16Formatter{
 		{name: "date", nValues: len(c16Dates), nFlags: 2, alphabet: []string{"0123456789", "-", "2021-01-01", "00000000", "-0-"},
-			call:     func(buf []byte, vi, flag int) ([]byte, error) { return date.DefaultFormatter(buf, c16Dates[vi], date.Format(flag)) },
-			describe: func(vi, flag int) string { y, m, d := c16Dates[vi].Date(); return fmt.Sprintf("date %d-%d-%d format=%d", y, m, d, flag) }},
+			call: func(buf []byte, vi, flag int) ([]byte, error) {
+				return date.DefaultFormatter(buf, c16Dates[vi], date.Format(flag))
+			},
+			describe: func(vi, flag int) string {
+				y, m, d := c16Dates[vi].Date()
+				return fmt.Sprintf("date %d-%d-%d format=%d", y, m, d, flag)
+			}},
 		{name: "roman", nValues: len(c16Romans), nFlags: 128, alphabet: []string{"IVXLCDM", "ivxlcdm", "MIX:", "mix:", "DIM LIVID MILD", "CIVIC civic", "I", "M", "x"},
 			call: func(buf []byte, vi, flag int) ([]byte, error) {
 				f, _ := romanFlags(flag)
 				return roman.DefaultFormatter(buf, c16Romans[vi], f)
 			},
-			describe: func(vi, flag int) string { f, _ := romanFlags(flag); return fmt.Sprintf("roman %d format=%d", c16Romans[vi], int(f)) }},
+			describe: func(vi, flag int) string {
+				f, _ := romanFlags(flag)
+				return fmt.Sprintf("roman %d format=%d", c16Romans[vi], int(f))
+			}},
 		{name: "sem", nValues: len(c16Sems), nFlags: 2, alphabet: []string{"v", "v1.2.3", "1.0.0-", "+", "-", ".", "vv", "0"},
-			call:     func(buf []byte, vi, flag int) ([]byte, error) { return sem.DefaultFormatter(buf, c16Sems[vi], sem.Format(flag)) },
+			call: func(buf []byte, vi, flag int) ([]byte, error) {
+				return sem.DefaultFormatter(buf, c16Sems[vi], sem.Format(flag))
+			},
 			describe: func(vi, flag int) string { return fmt.Sprintf("sem %+v format=%d", c16Sems[vi], flag) }},
 		{name: "size", nValues: len(c16Sizes), nFlags: 4, alphabet: []string{"B", "KiB", " ", "&nbsp;", "1 024 ", "0123456789", "&nbsp", ";"},
-			call:     func(buf []byte, vi, flag int) ([]byte, error) { return size.DefaultFormatter(buf, c16Sizes[vi], size.Format(flag)) },
+			call: func(buf []byte, vi, flag int) ([]byte, error) {
+				return size.DefaultFormatter(buf, c16Sizes[vi], size.Format(flag))
+			},
 			describe: func(vi, flag int) string { return fmt.Sprintf("size %d format=%d", uint64(c16Sizes[vi]), flag) }},
 		{name: "uu", nValues: len(c16IDs), nFlags: 2, alphabet: []string{"urn:uuid:", "URN:UUID:", "0123456789abcdef", "ABCDEF", "-", "urn:", "u"},
-			call:     func(buf []byte, vi, flag int) ([]byte, error) { return uu.DefaultFormatter(buf, c16IDs[vi], uu.Format(flag)) },
-			describe: func(vi, flag int) string { return fmt.Sprintf("uu %016x%016x format=%d", c16IDs[vi].Higher, c16IDs[vi].Lower, flag) }},
+			call: func(buf []byte, vi, flag int) ([]byte, error) {
+				return uu.DefaultFormatter(buf, c16IDs[vi], uu.Format(flag))
+			},
+			describe: func(vi, flag int) string {
+				return fmt.Sprintf("uu %016x%016x format=%d", c16IDs[vi].Higher, c16IDs[vi].Lower, flag)
+			}},
 	}
 }
 
@@ -110,7 +126,7 @@ func c16Case(w *rt.W, st *c16State, f *c16Formatter, vi, flag int, prefix []byte
 	for i := len(prefix); i < len(backing); i++ {
 		backing[i] = 0xEE
 	}
-	buf := backing[:len(prefix):len(prefix)+spare]
+	buf := backing[: len(prefix) : len(prefix)+spare]
 	out, err := f.call(buf, vi, flag)
 	w.Eval(2)
 	if err != nil {
